@@ -515,7 +515,7 @@ func (r *Run) execLib(op *OpDesc, c *Call) []*Violation {
 	if op.Recv == KScalar && op.RecvInput && !alpha.ScalarMontCanonical(pre.S[c.R]) {
 		scalarsOK = false
 	}
-	recvZero := op.Recv == KPoint && pre.P[c.R].GuardedZero()
+	recvZero := op.Recv == KPoint && pre.P[c.R].GuardedZero() && !op.Dynamic
 	if recvZero && op.Writes {
 		st.Inc("probe/zero_value_receiver")
 		if misuse == "" {
@@ -526,7 +526,7 @@ func (r *Run) execLib(op *OpDesc, c *Call) []*Violation {
 	// --- C11 differential twin on private copies (before touching the world) ---
 	var twin *Operands
 	var twinOut Outcome
-	doDiff := r.armed("C11") && misuse == "" && hasAliasing(op, c)
+	doDiff := r.armed("C11") && misuse == "" && hasAliasing(op, c) && !op.Dynamic
 	if doDiff {
 		twin = r.resolveDistinct(op, c, pre, ops)
 		twinOut = op.run(twin)
@@ -569,7 +569,10 @@ func (r *Run) execLib(op *OpDesc, c *Call) []*Violation {
 			}
 			st.Inc("site/misuse/" + op.Name + "/" + misuse + rc)
 		}
-		if !out.Panicked {
+		if !out.Panicked && op.Dynamic && r.copyLike(op, c, pre) {
+			// an API addition that turned out to be plain copying here (exempt, like Set)
+			st.Inc("observed/dynamic_op_copy_like/" + op.Name)
+		} else if !out.Panicked {
 			add(r.viol("C15", "misuse-not-loud", op.Name+"/"+misuse,
 				fmt.Sprintf("%s with %s returned normally instead of panicking", op.Name, misuse)))
 		} else {
@@ -611,7 +614,11 @@ func (r *Run) execLib(op *OpDesc, c *Call) []*Violation {
 		}
 		// nothing is demanded about the receiver after a panic: the simulated
 		// caller discards it (restore), everything else must be untouched.
-		r.restoreWriteSet(op, c, pre)
+		if op.Dynamic {
+			r.W.Restore(pre)
+		} else {
+			r.restoreWriteSet(op, c, pre)
+		}
 		vs = append(vs, r.frame(op, c, pre, ops, bPre, sliceHdrS, sliceHdrP)...)
 		r.logStep(op, c, &out, pre)
 		return r.finish(vs, pre)
@@ -827,6 +834,9 @@ func (r *Run) restoreWriteSet(op *OpDesc, c *Call, pre *Snap) {
 // changed, bit for bit.
 func (r *Run) frame(op *OpDesc, c *Call, pre *Snap, ops *Operands, bPre []byte, hS []*edwards25519.Scalar, hP []*edwards25519.Point) []*Violation {
 	var vs []*Violation
+	if op.Dynamic {
+		return nil // an API addition may be Swap-like: what it is allowed to write is unknown
+	}
 	w := r.W
 	wrP, wrS, wrE := -1, -1, map[int]bool{}
 	if op.Writes || op.Ctor {
@@ -949,11 +959,22 @@ func (r *Run) stateInvariants(op *OpDesc, c *Call, pre, post *Snap, failed bool)
 			// an unchanged slot was validated when it was written - except the
 			// receiver of a successful operation, which must hold a valid point now
 			// even if the operation chose not to touch it
-			if !(op.Recv == KPoint && op.Writes && i == c.R && !failed && post.P[i].GuardedZero()) {
+			if !(op.Recv == KPoint && op.Writes && !op.Dynamic && i == c.R && !failed && post.P[i].GuardedZero()) {
 				continue
 			}
 		}
 		raw := post.P[i]
+		if op.Dynamic {
+			// an API addition may move whole values around (swap, select): a slot that
+			// now holds, bit for bit, what one of the operands held before is a copy
+			copied := op.Recv == KPoint && raw == pre.P[c.R]
+			for _, j := range c.P {
+				copied = copied || raw == pre.P[j]
+			}
+			if copied {
+				continue
+			}
+		}
 		if failed && op.Recv == KPoint && i == c.R {
 			continue // a setter that reported an error: the receiver is C14's business
 		}
@@ -1644,4 +1665,23 @@ func (r *Run) recodingCoverage(op *OpDesc, ks []*big.Int) {
 			naf(k, 5, "C01/VarTimeMultiScalarMult/naf5(pos,digit)")
 		}
 	}
+}
+
+// copyLike reports whether, after a call of a dynamic operation, the receiver
+// is bit-identical to its previous content or to the previous content of one
+// of the same-typed arguments (plain copying / selection: exempt from C15).
+func (r *Run) copyLike(op *OpDesc, c *Call, pre *Snap) bool {
+	if op.Recv != KPoint {
+		return true // no Point is produced from the zero value
+	}
+	now := alpha.PointLimbs(r.W.P[c.R])
+	if now == pre.P[c.R] {
+		return true
+	}
+	for _, i := range c.P {
+		if now == pre.P[i] {
+			return true
+		}
+	}
+	return false
 }
